@@ -315,6 +315,65 @@ fn sexp_to_expr(s: &str) -> Option<Expr> {
     parse(&tokens, &mut pos)
 }
 
+/// long runs of operators of one level: N operands joined by the level's main operator with one other operator of
+/// the same level at every position (`a + b + ... - k + ...`), uniform runs, and runs one of whose terms is an
+/// expression of the next tighter level. The tree is the left fold whatever the length.
+fn long_runs(st: &mut Stats, thorough: bool) {
+    let ladder: Vec<usize> = if thorough {
+        vec![2, 3, 4, 5, 6, 7, 8, 9, 10, 12, 15, 16, 17, 18, 24, 31, 32, 33, 34, 48, 63, 64, 65, 66, 67, 96, 100, 127, 128, 129, 130, 131, 192, 200, 255, 256, 257, 258]
+    } else {
+        vec![2, 3, 5, 8, 9, 16, 17, 32, 33, 63, 64, 65, 66, 67, 100, 127, 128, 129, 130, 257]
+    };
+    use BinOp::*;
+    // (main operator, the other operator of the same level, an operator of the next tighter level)
+    let levels: [(BinOp, Option<BinOp>, Option<BinOp>); 8] = [(Add, Some(Sub), Some(Mul)), (Sub, Some(Add), Some(Div)), (Mul, Some(Div), None), (Div, Some(Mul), None), (And, None, Some(Lt)), (Or, None, Some(And)), (Or, None, Some(Eq)), (And, None, Some(Ne))];
+    let leaf = |i: usize| Expr::Raw(format!("\u{1}{}", [1usize, 0, 3, 4, 11][i % 5]));
+    let mut cases: Vec<(String, Expr)> = Vec::new();
+    for &n in &ladder {
+        for (main, other, tighter) in levels {
+            let fold = |ops: &dyn Fn(usize) -> BinOp, term: &dyn Fn(usize) -> Expr| -> Expr {
+                let mut e = term(0);
+                for i in 1..n {
+                    e = bin(ops(i), e, term(i));
+                }
+                e
+            };
+            cases.push((format!("{} operands under {}", n, main.text()), fold(&|_| main, &|i| leaf(i))));
+            // the positions: all of them for short runs, around the powers of two and the ends for long ones
+            let positions: Vec<usize> = (1..n).filter(|k| n <= 34 || *k <= 2 || *k + 2 >= n || [16usize, 32, 64, 128, 256].iter().any(|p| (*k as i64 - *p as i64).abs() <= 2)).collect();
+            for &k in &positions {
+                if let Some(o) = other {
+                    cases.push((format!("{} operands under {} with {} at operator {}", n, main.text(), o.text(), k), fold(&|i| if i == k { o } else { main }, &|i| leaf(i))));
+                }
+                if let Some(t) = tighter {
+                    cases.push((format!("{} operands under {} with a {} term at {}", n, main.text(), t.text(), k), fold(&|_| main, &|i| if i == k { bin(t, leaf(i), leaf(i + 1)) } else { leaf(i) })));
+                }
+            }
+        }
+    }
+    let accs = crate::pool::par_items(&cases, 8, |_| Stats::new(), |acc, i, (name, e)| {
+        let (fail, _) = judge(e);
+        acc.evaluations += 1;
+        acc.states += 1;
+        acc.transitions += 2;
+        acc.traces_validated += 1;
+        acc.nontrivial_by_construction += 1;
+        if i % 997 == 0 {
+            acc.sample(json!({"long_run": name}));
+        }
+        match fail {
+            None => acc.outcome("long-run:trees-equal"),
+            Some((sig, detail)) => {
+                acc.outcome(&sig);
+                acc.fail(Failure { sig, preds: vec!["long-run".into()], detail: format!("{}\n{}", name, detail.chars().take(3000).collect::<String>()), case: json!({"engine": "c13", "tree": tree_to_json(e)}), size: 100_000 + gen_sexp(e).len() });
+            }
+        }
+    });
+    for a in accs {
+        st.merge(a);
+    }
+}
+
 pub fn run(run: &mut Run) {
     let max_ops = if run.thorough() { 4 } else { 3 };
     let mut memo = Vec::new();
@@ -368,7 +427,9 @@ pub fn run(run: &mut Run) {
     run.stats = Stats::merge_all(accs);
     let all_leaves = if run.thorough() { 3 } else { 2 };
     value_family(&mut run.stats, max_ops, all_leaves);
-    run.rule = "every tree with at most N operator nodes over 13 binary + 2 unary operators; leaves take the atom kinds in rotation (all rotations); values: every well-typed tree over int (+ - * unary -), float (+ - * / unary -) and bool (comparisons, and, or, not, ==) leaves x y 1 2 / p q 4.0 0.5 / t f with at most 2 (thorough: 3) operators, and a 1-in-97 slice of the trees with up to N operators, compiled and run in minimal and fully parenthesised form and compared with the value of the tree; distinct by construction; non-trivial = at least two leaves".into();
+    let th = run.thorough();
+    long_runs(&mut run.stats, th);
+    run.rule = "every tree with at most N operator nodes over 13 binary + 2 unary operators; leaves take the atom kinds in rotation (all rotations); values: every well-typed tree over int (+ - * unary -), float (+ - * / unary -) and bool (comparisons, and, or, not, ==) leaves x y 1 2 / p q 4.0 0.5 / t f with at most 2 (thorough: 3) operators, and a 1-in-97 slice of the trees with up to N operators, compiled and run in minimal and fully parenthesised form and compared with the value of the tree; long runs: 2..257 operands under one operator of each level (+ - * / and or), with the other operator of the level at each position (every position up to 34 operands; the ends and the neighbourhoods of 16, 32, 64, 128, 256 beyond) and with one term of the next tighter level at each such position, against the left fold; distinct by construction; non-trivial = at least two leaves".into();
     run.bounds = json!({"max_operator_nodes": max_ops, "atoms": ATOMS, "shapes": shapes.len()});
     run.assumptions = vec![
         "the precedence table of the property statement; unary operands and unary children of * / are always parenthesised by the printer because the table is silent there".into(),
